@@ -1118,6 +1118,55 @@ static pid_t chain_fork(void)
     return (pid_t) r;
 }
 
+static void run_ops(op_t *ops, int nops);
+/* chain levels whose thread-group leader has finished (pthread_exit in the main thread) while another thread carries on: such a process
+   is alive, keeps its name and its children, but /proc/<pid>/stat shows state Z for it.  Set by op 'd' (bit i = level i). */
+static unsigned g_zleader_mask;
+typedef struct { op_t *ops; int nops, idx; uint32_t level; } chain_ctx_t;
+static void chain_level(op_t *ops, int nops, int idx, uint32_t i);
+static void chain_level_body(op_t *ops, int nops, int idx, uint32_t i)
+{
+    pid_t p = chain_fork();
+    if (p < 0) { ev_error("fork chain"); _exit(94); }
+    if (p > 0) {
+        int st;
+        while (waitpid(p, &st, 0) < 0 && errno == EINTR) ;
+        if (WIFSIGNALED(st)) { signal(WTERMSIG(st), SIG_DFL); kill(getpid(), WTERMSIG(st)); }
+        _exit(WIFEXITED(st) ? WEXITSTATUS(st) : 93);
+    }
+    prctl(PR_SET_PDEATHSIG, SIGKILL);
+    g_chain_level = -1; signal(SIGUSR1, SIG_DFL);
+    chain_level(ops, nops, idx, i + 1);
+}
+static void *chain_thread(void *p)
+{
+    chain_ctx_t *c = p;
+    chain_level_body(c->ops, c->nops, c->idx, c->level);
+    return NULL;
+}
+static void chain_level(op_t *ops, int nops, int idx, uint32_t i)
+{
+    const op_t *op = &ops[idx];
+    if (i >= op->n) {
+        run_ops(ops + idx + 1, nops - idx - 1);
+        _exit(0);
+    }
+    char *nm = dupz(op->a[i].p, op->a[i].len);
+    prctl(PR_SET_NAME, nm, 0, 0, 0);
+    free(nm);
+    if (g_chain && i < 32) {
+        g_chain_level = (int) i; g_chain->pid[i] = getpid();
+        struct sigaction sa; memset(&sa, 0, sizeof sa); sa.sa_handler = chain_sig; sigaction(SIGUSR1, &sa, NULL);
+    }
+    if (i < 32 && (g_zleader_mask & (1u << i))) {
+        static chain_ctx_t c;
+        pthread_t t;
+        c.ops = ops; c.nops = nops; c.idx = idx; c.level = i;
+        if (pthread_create(&t, NULL, chain_thread, &c) == 0) pthread_exit(NULL);
+    }
+    chain_level_body(ops, nops, idx, i);
+}
+
 static void op_chain(op_t *ops, int nops, int idx)
 {
     /* args: names...  -- every level forks; level i sets its name then forks the next; the leaf runs the rest */
@@ -1125,27 +1174,7 @@ static void op_chain(op_t *ops, int nops, int idx)
     g_chain = mmap(NULL, 4096, PROT_READ | PROT_WRITE, MAP_SHARED | MAP_ANONYMOUS, -1, 0);
     if (g_chain == MAP_FAILED) { g_chain = NULL; ev_error("mmap chain"); }
     else { g_chain->n = (int) op->n; g_chain->req_level = -1; }
-    for (uint32_t i = 0; i < op->n; i++) {
-        char *nm = dupz(op->a[i].p, op->a[i].len);
-        prctl(PR_SET_NAME, nm, 0, 0, 0);
-        free(nm);
-        if (g_chain && i < 32) {
-            g_chain_level = (int) i; g_chain->pid[i] = getpid();
-            struct sigaction sa; memset(&sa, 0, sizeof sa); sa.sa_handler = chain_sig; sigaction(SIGUSR1, &sa, NULL);
-        }
-        pid_t p = chain_fork();
-        if (p < 0) { ev_error("fork chain"); _exit(94); }
-        if (p > 0) {
-            int st;
-            while (waitpid(p, &st, 0) < 0 && errno == EINTR) ;
-            if (WIFSIGNALED(st)) { signal(WTERMSIG(st), SIG_DFL); kill(getpid(), WTERMSIG(st)); }
-            _exit(WIFEXITED(st) ? WEXITSTATUS(st) : 93);
-        }
-        prctl(PR_SET_PDEATHSIG, SIGKILL);
-        g_chain_level = -1; signal(SIGUSR1, SIG_DFL);
-    }
-    run_ops(ops + idx + 1, nops - idx - 1);
-    _exit(0);
+    chain_level(ops, nops, idx, 0);
 }
 
 static void run_ops(op_t *ops, int nops)
@@ -1181,6 +1210,7 @@ static void run_ops(op_t *ops, int nops)
         case 'u': { char *p = dupz(op->a[0].p, op->a[0].len); if (rmdir(p) < 0) ev_error("rmdir"); free(p); break; }
         case 'N': { char *p = dupz(op->a[0].p, op->a[0].len); prctl(PR_SET_NAME, p, 0, 0, 0); free(p); break; }
         case 's': if (setsid() < 0) ev_error("setsid"); break;
+        case 'd': g_zleader_mask = (unsigned) arg_ll(&op->a[0]); break;
         case 'x': for (uint32_t k = 0; k < op->n; k++) { char *p = dupz(op->a[k].p, op->a[k].len); unlink(p); free(p); } break;
         case 'L': fflush(stdout); fflush(stderr); break;
         case 'k': { mode_t m = (mode_t) strtol(dupz(op->a[0].p, op->a[0].len), NULL, 8); umask(m); break; }
